@@ -1,219 +1,51 @@
-(* C03 — lemmas over the control-skeleton model. *)
+(* C03 — the universal theorems: induction on fuel over the combinator lemmas of PComb.v. *)
 From Coq Require Import List ZArith Bool Arith Lia.
 Import ListNotations.
 From Verif.C03 Require Import Model.
+From Verif.C03 Require Export PBase PComb.
 Open Scope Z_scope.
 
-Definition regs (s : state) := (sp s, sb s, args s, prg s, stash s, cs s, ts s, its s, refs s).
+Section Main.
+Variable lim : option nat.
+Variable faults : list (nat * fkind).
+Variable fixed : bool.
 
-(* ---- list facts about [low] ---- *)
-Lemma low_app_exact : forall A (xs l : list A), low (length l) (xs ++ l) = l.
+Local Notation exec := (exec lim faults fixed).
+Local Notation leave := (leave lim faults fixed).
+Local Notation run_top := (run_top lim faults fixed).
+
+Lemma main_invariant : forall fuel,
+  (forall nd s, Inv fixed s (exec fuel nd s)) /\
+  (forall s, GInv fixed PostL s (leave fuel s)) /\
+  (forall body s, GInv fixed PostT s (fst (run_top fuel body s))).
 Proof.
-  intros. unfold low. rewrite app_length.
-  replace (length xs + length l - length l)%nat with (length xs) by lia.
-  rewrite skipn_app, skipn_all, Nat.sub_diag. reflexivity.
+  induction fuel as [|f (IHe & IHl & IHt)].
+  - split; [|split]; intros; simpl; apply GInv_ret; simpl; auto; unfold PostT; simpl; auto.
+  - split; [|split].
+    + intros nd s. simpl. apply node_step_inv; auto.
+    + intros s. simpl. destruct (jq s) as [|j js] eqn:Hj.
+      { apply GInv_ret; simpl; auto. }
+      pose proof (run_batch_inv lim fixed (exec f) IHe (j :: js) (set_jq [] s)) as G.
+      apply (GInv_regs_base fixed PostL s (set_jq [] s) _ PostL_base eq_refl eq_refl) in G.
+      destruct (run_batch lim fixed (exec f) (j :: js) (set_jq [] s)) as [s1 o].
+      destruct o; try exact G.
+      apply Chain_GInv.
+      eapply (Chain_bind fixed PostL s s1 s1 _ (PostL s s1 ONorm)); [exact G | reflexivity | apply IHl | | ].
+      * intros R T. simpl in R. eapply TopOK_regs; eauto.
+      * intros R T P. simpl in R. eapply PostL_base; eauto.
+    + intros body s. simpl. apply run_top_step_inv; auto.
 Qed.
 
-Lemma firstn_app_exact : forall A (xs l : list A), firstn (length (xs ++ l) - length l) (xs ++ l) = xs.
+Lemma exec_inv : forall fuel nd s, Inv fixed s (exec fuel nd s).
+Proof. intros. apply main_invariant. Qed.
+
+(* Callable / RunProgram nodes: everything restored, sp included *)
+Lemma exec_api_inv : forall fuel nd s,
+  (match nd with NCallable _ _ | NRun _ _ => True | _ => False end) -> GInv fixed PostL s (exec fuel nd s).
 Proof.
-  intros. rewrite app_length.
-  replace (length xs + length l - length l)%nat with (length xs) by lia.
-  rewrite firstn_app, firstn_all, Nat.sub_diag. simpl. apply app_nil_r.
+  intros fuel nd s H. destruct fuel as [|f].
+  - simpl. apply GInv_ret; simpl; auto.
+  - simpl. destruct (main_invariant f) as (IHe & IHl & IHt). apply node_step_api; auto.
 Qed.
 
-Lemma nth_error_bottom : forall (xs : list ctx) (c : ctx) (l : list ctx),
-  nth_error ((xs ++ [c]) ++ l) (length ((xs ++ [c]) ++ l) - length l - 1) = Some c.
-Proof.
-  intros. rewrite !app_length. simpl.
-  replace (length xs + 1 + length l - length l - 1)%nat with (length xs) by lia.
-  rewrite <- app_assoc. rewrite nth_error_app2 by lia. rewrite Nat.sub_diag. reflexivity.
-Qed.
-
-(* "s extends s0": what a computation started at s0 may have piled on top of s0's stacks *)
-Definition bottom_ok (s0 : state) (xs : list ctx) (s : state) : Prop :=
-  match xs with
-  | [] => prg s = prg s0 /\ sb s = sb s0 /\ args s = args s0
-  | _ => c_prg (last xs halt_ctx) = prg s0 /\ c_sb (last xs halt_ctx) = sb s0 /\ c_args (last xs halt_ctx) = args s0
-  end.
-
-Record extends (s0 s : state) (xs : list ctx) (ys : list nat) (k : nat) : Prop := {
-  ext_cs : cs s = xs ++ cs s0;
-  ext_bottom : bottom_ok s0 xs s;
-  ext_its : its s = ys ++ its s0;
-  ext_refs : refs s = (k + refs s0)%nat }.
-
-(* the register restore of handleThrow at a frame pushed at s0, applied to any extension of s0 *)
-Lemma restore_at_frame : forall m c f s0 s xs ys k,
-  extends s0 s xs ys k ->
-  let s' := restore_at (new_frame m c f s0) s in
-  cs s' = cs s0 /\ its s' = its s0 /\ refs s' = refs s0 /\ stash s' = stash s0 /\
-  prg s' = prg s0 /\ sb s' = sb s0 /\ args s' = args s0 /\ sp s' = sp s0 /\
-  ts s' = ts s /\ log s' = log s ++ map close_ev ys /\
-  jq s' = jq s /\ intr s' = intr s /\ pcount s' = pcount s /\ trace s' = trace s /\ leaked s' = leaked s.
-Proof.
-  intros m c f s0 s xs ys k [Hcs Hb Hits Hrefs]. unfold restore_at, new_frame. cbn [t_csl t_iter t_ref t_sp t_stash].
-  assert (Hlow_its : low (length (its s0)) (its s) = its s0) by (rewrite Hits; apply low_app_exact).
-  assert (Hdrop : firstn (length (its s) - length (its s0)) (its s) = ys) by (rewrite Hits; apply firstn_app_exact).
-  assert (Hmin : Nat.min (refs s0) (refs s) = refs s0) by lia.
-  destruct xs as [|x xs'].
-  - (* same call depth: nothing to pop *)
-    simpl in Hcs. destruct Hb as (Hp & Hsb & Ha).
-    rewrite Hcs, Nat.ltb_irrefl. unfold restore_stacks. cbn -[low firstn Nat.min Nat.sub].
-    rewrite Hlow_its, Hdrop, Hmin. repeat split; auto.
-  - destruct (@exists_last _ (x :: xs') ltac:(discriminate)) as (xs'' & c0 & Hx).
-    unfold bottom_ok in Hb. rewrite Hx in Hb, Hcs. rewrite last_last in Hb. destruct Hb as (Hp & Hsb & Ha).
-    assert (Hlt : Nat.ltb (length (cs s0)) (length (cs s)) = true).
-    { apply Nat.ltb_lt. rewrite Hcs, !app_length. simpl. lia. }
-    rewrite Hlt.
-    assert (Hn : nth_error (cs s) (length (cs s) - length (cs s0) - 1) = Some c0).
-    { rewrite Hcs. apply nth_error_bottom. }
-    rewrite Hn. unfold restore_stacks. cbn -[low firstn Nat.min Nat.sub].
-    rewrite Hlow_its, Hdrop, Hmin.
-    assert (Hlow_cs : low (length (cs s0)) (cs s) = cs s0) by (rewrite Hcs; apply low_app_exact).
-    rewrite Hlow_cs. repeat split; auto.
-Qed.
-
-(* handle_loop skips skippable frames *)
-Lemma handle_loop_skip : forall p above rest s,
-  forallb (skippable p) above = true -> handle_loop p (above ++ rest) s = handle_loop p rest s.
-Proof.
-  induction above as [|a ab IH]; intros; simpl in *; auto.
-  apply andb_prop in H. destruct H as [Ha Hab]. rewrite Ha. auto.
-Qed.
-
-(* THE SNAPSHOT/RESTORE LEMMA: after unwinding to a try frame (pushed at s0) from any extension of s0, the
-   call stack, iterator stack, reference stack, stash, frame registers and sp are exactly those at the try *)
-Lemma handleThrow_restores : forall p m c f s0 above s xs ys k,
-  let tf := new_frame m c f s0 in
-  skippable p tf = false ->
-  forallb (skippable p) above = true ->
-  ts s = above ++ tf :: ts s0 ->
-  extends s0 s xs ys k ->
-  let s' := fst (handle_throw p s) in
-  cs s' = cs s0 /\ its s' = its s0 /\ refs s' = refs s0 /\ stash s' = stash s0 /\
-  prg s' = prg s0 /\ sb s' = sb s0 /\ args s' = args s0 /\
-  sp s' = (if negb m && c then sp s0 + 1 else sp s0) /\
-  tl (ts s') = ts s0 /\ length (ts s') = S (length (ts s0)) /\
-  log s' = log s ++ map close_ev ys /\
-  snd (handle_throw p s) =
-    (if m then OUnwound p else if c then OCaught (length (ts s0)) HCatch p else OCaught (length (ts s0)) HFin p).
-Proof.
-  intros p m c f s0 above s xs ys k tf Hns Hab Hts Hext.
-  unfold handle_throw. rewrite Hts, (handle_loop_skip p above _ s Hab).
-  cbn [handle_loop]. fold tf. rewrite Hns.
-  pose proof (restore_at_frame m c f s0 s xs ys k Hext) as R. cbv zeta in R. fold tf in R.
-  destruct R as (R1 & R2 & R3 & R4 & R5 & R6 & R7 & R8 & R9 & R10 & _).
-  replace (t_marker tf) with m by reflexivity. replace (t_catch tf) with c by reflexivity.
-  generalize dependent (restore_at tf s). intros r R1 R2 R3 R4 R5 R6 R7 R8 R9 R10.
-  destruct m; [|destruct c]; cbn; rewrite ?R8; repeat split; auto.
-Qed.
-
-(* ---- consequences ---- *)
-
-Lemma marker_not_skippable : forall p s, skippable p (new_frame true false false s) = false.
-Proof. intros. unfold skippable, new_frame. cbn. destruct (catchable p); reflexivity. Qed.
-
-Lemma extends_refl : forall s, extends s s [] [] 0.
-Proof. intros. constructor; simpl; auto. Qed.
-
-(* handleThrow is idempotent at a marker frame: the second application (the one made by runTryInner's recover
-   after vm.throw already unwound) changes no register and gives the same verdict *)
-Lemma handleThrow_idem : forall p s0 above s xs ys k,
-  let tf := new_frame true false false s0 in
-  forallb (skippable p) above = true ->
-  ts s = above ++ tf :: ts s0 ->
-  extends s0 s xs ys k ->
-  let s1 := fst (handle_throw p s) in
-  regs (fst (handle_throw p s1)) = regs s1 /\ snd (handle_throw p s1) = snd (handle_throw p s) /\
-  log (fst (handle_throw p s1)) = log s1.
-Proof.
-  intros p s0 above s xs ys k tf Hab Hts Hext s1.
-  pose proof (marker_not_skippable p s0) as Hm. fold tf in Hm.
-  pose proof (handleThrow_restores p true false false s0 above s xs ys k (marker_not_skippable p s0) Hab Hts Hext) as H.
-  cbv zeta in H. fold s1 in H. destruct H as (A1 & A2 & A3 & A4 & A5 & A6 & A7 & A8 & A9 & A10 & A11 & A12).
-  assert (Hts1 : ts s1 = [] ++ tf :: ts s0).
-  { unfold s1, handle_throw. rewrite Hts, (handle_loop_skip p above _ s Hab). cbn [handle_loop].
-    fold tf. rewrite Hm. reflexivity. }
-  assert (Hext1 : extends s0 s1 [] [] 0) by (constructor; simpl; auto).
-  pose proof (handleThrow_restores p true false false s0 [] s1 [] [] 0%nat (marker_not_skippable p s0) eq_refl Hts1 Hext1) as H.
-  cbv zeta in H. destruct H as (B1 & B2 & B3 & B4 & B5 & B6 & B7 & B8 & B9 & B10 & B11 & B12).
-  split; [|split].
-  - unfold regs. rewrite B1, B2, B3, B4, B5, B6, B7, B8, A1, A2, A3, A4, A5, A6, A7, A8. simpl.
-    assert (ts (fst (handle_throw p s1)) = ts s1).
-    { unfold handle_throw at 1. rewrite Hts1. cbn [app handle_loop]. fold tf. rewrite Hm. reflexivity. }
-    rewrite H. reflexivity.
-  - rewrite B12, A12. reflexivity.
-  - rewrite B11. simpl. apply app_nil_r.
-Qed.
-
-(* an uncatchable payload is never delivered to a JS handler, whatever the try stack looks like *)
-Lemma uncatchable_loop : forall p fr s, catchable p = false -> snd (handle_loop p fr s) = OUnwound p.
-Proof.
-  induction fr as [|tf rest IH]; intros s Hp; simpl; auto.
-  destruct (skippable p tf) eqn:Hs; auto.
-  destruct (t_marker tf) eqn:Hm; auto.
-  unfold skippable in Hs. rewrite Hp, Hm in Hs. simpl in Hs. rewrite orb_true_r in Hs. discriminate.
-Qed.
-Lemma uncatchable_never_caught : forall p s, catchable p = false -> snd (handle_throw p s) = OUnwound p.
-Proof. intros. apply uncatchable_loop. auto. Qed.
-
-(* handleThrow never grows the try stack *)
-Lemma handle_loop_shrinks : forall p fr s, (length (ts (fst (handle_loop p fr s))) <= length fr)%nat.
-Proof.
-  induction fr as [|tf rest IH]; intros s; simpl; auto.
-  destruct (skippable p tf). { specialize (IH s). lia. }
-  destruct (t_marker tf); [|destruct (t_catch tf)]; cbn; lia.
-Qed.
-Lemma handleThrow_shrinks : forall p s, (length (ts (fst (handle_throw p s))) <= length (ts s))%nat.
-Proof. intros. apply handle_loop_shrinks. Qed.
-
-(* vm.try: whatever ran inside, if it returned normally with the registers it was entered with, or panicked
-   leaving the try stack balanced above the marker (and only piled contexts/iterators/refs on top of the
-   caller's), the caller's registers are restored EXACTLY *)
-Definition balanced_panic (s1 s2 : state) : Prop :=
-  ts s2 = ts s1 /\ exists xs ys k, extends s1 s2 xs ys k.
-
-Lemma vm_try_restores : forall (f : state -> state * outcome) s,
-  let s1 := push_try true false false s in
-  (snd (f s1) = ONorm -> regs (fst (f s1)) = regs s1) ->
-  (forall p, snd (f s1) = OPanic p -> balanced_panic s1 (fst (f s1))) ->
-  (snd (f s1) = ONorm \/ exists p, snd (f s1) = OPanic p) ->
-  regs (fst (vm_try f s)) = regs s.
-Proof.
-  intros f s s1 Hn Hp Ho. unfold vm_try. fold s1. destruct (f s1) as [s2 o] eqn:Hf. simpl in *.
-  destruct Ho as [Ho | [p Ho]]; subst o.
-  - specialize (Hn eq_refl). unfold regs in *. simpl. inversion Hn. unfold s1, push_try in *. simpl in *.
-    rewrite H6. simpl. congruence.
-  - destruct (Hp p eq_refl) as (Hts & xs & ys & k & Hext).
-    assert (Hext' : extends s s2 xs ys k).
-    { destruct Hext as [E1 E2 E3 E4]. constructor; auto. }
-    assert (Hts' : ts s2 = [] ++ new_frame true false false s :: ts s) by (rewrite Hts; reflexivity).
-    pose proof (handleThrow_restores p true false false s [] s2 xs ys k (marker_not_skippable p s) eq_refl Hts' Hext') as H.
-    cbv zeta in H. destruct H as (B1 & B2 & B3 & B4 & B5 & B6 & B7 & B8 & B9 & _).
-    destruct (handle_throw p s2) as [s3 o3]. simpl in *.
-    destruct (catchable p); unfold regs, pop_try; simpl; rewrite B1, B2, B3, B4, B5, B6, B7, B8, B9; reflexivity.
-Qed.
-
-(* ---- the recorded deviations, exhibited by the faithful model (vm_compute witnesses) ---- *)
-Definition idle_after (lim : option nat) (faults : list (nat * fkind)) (fixed : bool) (a : api) : bool :=
-  idle_full (fst (api_exec lim faults fixed 80 a init)).
-
-Definition w16 := ARun [Gen [Probe]].                        (* gen().next() interrupted inside the body *)
-Definition w16b := ARun [Call [Gen [Probe]]].                (* limit 3: overflow inside the resumption *)
-Definition w17 := ARun [Call []].                            (* limit 0: top-level stack overflow *)
-Definition w21 := ARun [Call [Native [NRun false [Probe]]]]. (* limit 2: re-entrant RunString at the limit *)
-Definition w22 := ARun [Then [Effect 7]; Probe].             (* foreign Go panic with a job pending *)
-
-Lemma idle_refuted_F16 : exists lim faults a, idle_after lim faults false a = false /\ idle_after lim faults true a = true.
-Proof. exists None, [(0%nat, FIntr)], w16. vm_compute. auto. Qed.
-Lemma idle_refuted_F16_overflow : exists lim faults a, idle_after lim faults false a = false /\ idle_after lim faults true a = true.
-Proof. exists (Some 3%nat), [], w16b. vm_compute. auto. Qed.
-Lemma idle_refuted_F17 : exists lim faults a, idle_after lim faults false a = false /\ idle_after lim faults true a = true.
-Proof. exists (Some 0%nat), [], w17. vm_compute. auto. Qed.
-Lemma idle_refuted_F22 : exists lim faults a, idle_after lim faults false a = false /\ idle_after lim faults true a = true.
-Proof. exists None, [(0%nat, FGo)], w22. vm_compute. auto. Qed.
-
-(* F21: the registers the native function sees after the re-entrant RunString returned differ from those before *)
-Definition nested_regs (fixed : bool) : list snap := trace (fst (api_exec (Some 2%nat) [] fixed 80 w21 init)).
-Lemma nested_refuted_F21 : nested_regs false <> nested_regs true.
-Proof. vm_compute. discriminate. Qed.
+End Main.
